@@ -22,14 +22,23 @@
       action had the bypass flag, or the queued normal packet it replaces.
     Known finding F8 (zero-duration blocks) is the excluded corner of the
     rule: [C16_zero_duration_refuted] exhibits it on the model.
-    PARTIAL: the no-leak and BlockingEnd theorems are about every event of
-    every trace, but the blocking state they refer to is the simulator's own
-    (existentially quantified reachable state), tied to the action stream by
-    the step rule rather than by a single trace-level statement; the monitor
-    replays the actions and checks the trace-level rule on generated runs. *)
+    - [C16_trace]: the fail-closed half at the level of whole runs, in terms
+      of the returned trace and the actions only. For every run on a parsed
+      trace recording all events, the trace is the event column of a history H
+      with a cause assignment f (as in C17_trace) such that: after a
+      BlockingBegin of a side caused by a BlockOutgoing of positive duration,
+      and until the next BlockingEnd of that side, every TunnelSent of that
+      side carries the bypass flag -- nothing else leaves a blocked side.
+    PARTIAL in one respect: "the bypass flag may only be honoured when every
+    action that started or updated the blocking allowed bypass" is proved
+    about the simulator's own blocking state ([C16_no_leak] with
+    [C16_block_rule]: the flag is set by a start or replace and and-ed by an
+    extension), not restated over the trace alone, because a BlockingBegin may
+    be reported after a packet it legitimises at the same instant; the monitor
+    replays the actions and checks that rule on generated runs. *)
 From MB Require Import Model.Framework Model.Sim.
 From MB Require Import Proofs.SimReach.
-From MB Require Proofs.SimBlocking Proofs.SimTrace.
+From MB Require Proofs.SimBlocking Proofs.SimTrace Proofs.SimHistory Proofs.SimActionTrace Proofs.SimBlockTrace.
 Import ListNotations.
 Open Scope N_scope.
 
@@ -95,3 +104,25 @@ Print Assumptions C16_bypass_origin.
 (** the hypothesis on the queue holds for every parsed trace *)
 Lemma C16_parsed_queue : forall tr delay, SimBlocking.sq_inv (parse_trace tr delay).
 Proof. exact SimBlocking.parse_trace_inv. Qed.
+
+Theorem C16_trace : forall fuel cc sc tp tr delay pps args out,
+  SimHistory.full_args args ->
+  sim_advanced fuel cc sc tp (parse_trace tr delay) delay pps args = Ok out ->
+  exists H : list SimHistory.hrec, out = map SimHistory.h_ev H /\
+  exists f : nat -> nat,
+    (forall k rk m, nth_error H k = Some rk ->
+       (se_ev (SimHistory.h_ev rk) = TEPaddingSent m \/ se_ev (SimHistory.h_ev rk) = TEBlockingBegin m) ->
+       SimActionTrace.caused_by H k rk m (f k)) /\
+    forall b k rb rk m rj a,
+      (b < k)%nat -> nth_error H b = Some rb -> nth_error H k = Some rk ->
+      se_ev (SimHistory.h_ev rb) = TEBlockingBegin m ->
+      nth_error H (f b) = Some rj -> In a (SimHistory.h_acts rj) -> taction_machine a = m ->
+      SimActionTrace.completes a (SimHistory.h_ev rb) -> (0 < SimBlockTrace.block_dur a) ->
+      se_ev (SimHistory.h_ev rk) = TETunnelSent ->
+      se_client (SimHistory.h_ev rk) = se_client (SimHistory.h_ev rb) ->
+      (forall i ri, (b < i < k)%nat -> nth_error H i = Some ri ->
+                    ~ (se_ev (SimHistory.h_ev ri) = TEBlockingEnd /\
+                       se_client (SimHistory.h_ev ri) = se_client (SimHistory.h_ev rb))) ->
+      se_bypass (SimHistory.h_ev rk) = true.
+Proof. exact SimBlockTrace.blocked_side_sends_only_bypass. Qed.
+Print Assumptions C16_trace.
